@@ -2,14 +2,14 @@ package main
 
 import (
 	"bufio"
-	"io"
-	"os/exec"
 	"crypto/sha256"
 	"encoding/hex"
 	"encoding/json"
 	"flag"
 	"fmt"
+	"io"
 	"os"
+	"os/exec"
 	"runtime"
 	"sort"
 	"strings"
@@ -20,18 +20,18 @@ import (
 
 // scnReport is what `verifh scn` writes for the orchestrator.
 type scnReport struct {
-	Scenarios   int                       `json:"scenarios"`
-	Runs        int                       `json:"runs"`
-	Distinct    int                       `json:"distinct"`
-	Nontrivial  int                       `json:"nontrivial"`
-	Steps       int                       `json:"steps"`
-	Firings     int                       `json:"firings"`
-	ByComp      map[string]int            `json:"byComp"`
-	Samples     map[string][]scnMismatch  `json:"samples"`
-	Forks       []string                  `json:"forks"`
-	ParseErrors int                       `json:"parseErrors"`
-	Example     []json.RawMessage         `json:"example"`
-	OpsSeen     map[string]int            `json:"opsSeen"`
+	Scenarios   int                      `json:"scenarios"`
+	Runs        int                      `json:"runs"`
+	Distinct    int                      `json:"distinct"`
+	Nontrivial  int                      `json:"nontrivial"`
+	Steps       int                      `json:"steps"`
+	Firings     int                      `json:"firings"`
+	ByComp      map[string]int           `json:"byComp"`
+	Samples     map[string][]scnMismatch `json:"samples"`
+	Forks       []string                 `json:"forks"`
+	ParseErrors int                      `json:"parseErrors"`
+	Example     []json.RawMessage        `json:"example"`
+	OpsSeen     map[string]int           `json:"opsSeen"`
 }
 
 type scnMismatch struct {
